@@ -433,6 +433,32 @@ class C10(Check):
             self.violated("V5", MOD, q, "one-table-per-segment", src[0] if src else filler, "not exactly one argument table per segment: " + "; ".join(sorted(set(seg_problems))))
         else:
             self.holds("V5", MOD, q, "one-table-per-segment", src[0], "exactly one table appended per (frame, parameters) pair, unfiltered")
+        # the table is complete: every include_* option of Model.get_args_time_course is on (views select from it afterwards)
+        mm = self.prog.module("model.py").func("Model.get_args_time_course")
+        defaults = {}
+        pos = mm.args.args
+        for a, d in zip(pos[len(pos) - len(mm.args.defaults):], mm.args.defaults):
+            defaults[a.arg] = d
+        for a, d in zip(mm.args.kwonlyargs, mm.args.kw_defaults):
+            if d is not None:
+                defaults[a.arg] = d
+        incl = [a for a in defaults if a.startswith("include_")]
+        fills = [c for c in ast.walk(filler) if isinstance(c, ast.Call) and isinstance(c.func, ast.Attribute) and c.func.attr == "get_args_time_course"]
+        if not fills or not incl:
+            self.undecided_ob("V5", MOD, q, "complete-table", filler, "call of Model.get_args_time_course (or its include_* options) not found")
+        else:
+            off = []
+            for c in fills:
+                kw = {k.arg: k.value for k in c.keywords}
+                for a in incl:
+                    v = kw.get(a, defaults[a])
+                    if not (isinstance(v, ast.Constant) and v.value is True):
+                        off.append(f"{a}={norm(v)}")
+            if off:
+                self.violated("V5", MOD, q, "complete-table", fills[0], f"the cached argument table is computed with {off}: views that ask for these columns get a table without them",
+                              witness="sim.get_args(include_readouts=True) / sim.get_fluxes() lacks the columns (or raises KeyError) although the model provides them")
+            else:
+                self.holds("V5", MOD, q, "complete-table", fills[0], f"all {len(incl)} include_* options are on")
         # nobody else appends / reads raw_args directly
         others = []
         for name, fn in methods.items():
